@@ -322,7 +322,9 @@ def _index_sets(n, max_size):
     out = []
     for r in range(0, max_size + 1):
         out += [tuple(c) for c in itertools.combinations(range(n), r)]
-    return out
+    # the order in which the caller lists the indices is immaterial: descending and rotated orders too
+    out += [tuple(reversed(c)) for c in out if len(c) >= 2] + [c[1:] + c[:1] for c in out if len(c) >= 3]
+    return list(dict.fromkeys(out))
 
 
 def h_remove(env, n, keys, kind, index_sets, canary=False):
